@@ -17,6 +17,8 @@ pub static WRITE_AFTER_FREE: AtomicU64 = AtomicU64::new(0);
 pub static STRICT_ALL: AtomicBool = AtomicBool::new(false);
 /// maintain the global counters without poisoning / quarantine
 pub static COUNT_GLOBAL: AtomicBool = AtomicBool::new(false);
+/// fill blocks with the poison pattern right before they are freed (no quarantine)
+pub static POISON_ON_FREE: AtomicBool = AtomicBool::new(false);
 
 const QN: usize = 256;
 const QMAX: usize = 1 << 16;
@@ -123,6 +125,9 @@ unsafe impl GlobalAlloc for VAlloc {
                 return;
             }
         }
+        if POISON_ON_FREE.load(Ordering::Relaxed) && layout.size() <= QMAX {
+            std::ptr::write_bytes(ptr, POISON, layout.size());
+        }
         System.dealloc(ptr, layout)
     }
     unsafe fn realloc(&self, ptr: *mut u8, layout: Layout, new_size: usize) -> *mut u8 {
@@ -156,6 +161,9 @@ pub fn set_strict(on: bool) {
 }
 pub fn set_global_counting(on: bool) {
     COUNT_GLOBAL.store(on, Ordering::SeqCst);
+}
+pub fn set_poison_on_free(on: bool) {
+    POISON_ON_FREE.store(on, Ordering::SeqCst);
 }
 pub fn set_strict_all(on: bool) {
     STRICT_ALL.store(on, Ordering::SeqCst);
